@@ -41,6 +41,7 @@ func (s *scope) pushForRange(loopVar string) (lVar, lLimit string) {
 	n := strconv.Itoa(s.n)
 	s.stack = append(s.stack, map[string]string{
 		loopVar:   loopVar + n,
+		"__var":   loopVar,
 		"__limit": loopVar + "Limit" + n,
 		"__index": loopVar + n,
 	})
@@ -53,6 +54,7 @@ func (s *scope) pushForEach(loopVar string) (lVar, lList, lLen, lIndex string) {
 	n := strconv.Itoa(s.n)
 	s.stack = append(s.stack, map[string]string{
 		loopVar:   loopVar + n,
+		"__var":   loopVar,
 		"__limit": loopVar + "Limit" + n,
 		"__index": loopVar + "Index" + n,
 	})
@@ -62,12 +64,13 @@ func (s *scope) pushForEach(loopVar string) (lVar, lList, lLen, lIndex string) {
 		loopVar + "Index" + n
 }
 
-// looplimit returns the JS variable name for the innermost loop limit.
-func (s *scope) looplimit() string {
-	return s.lookup("__limit")
-}
-
-// looplimit returns the JS variable name for the innermost loop index.
-func (s *scope) loopindex() string {
-	return s.lookup("__index")
+// loopvars returns the JS variable names of the index and the limit of the
+// enclosing loop whose variable is loopVar ("" if there is none).
+func (s *scope) loopvars(loopVar string) (index, limit string) {
+	for i := len(s.stack) - 1; i >= 0; i-- {
+		if s.stack[i]["__var"] == loopVar {
+			return s.stack[i]["__index"], s.stack[i]["__limit"]
+		}
+	}
+	return "", ""
 }
